@@ -33,7 +33,7 @@ def sh(cmd, cwd=None, timeout=3600, env=None):
 
 
 def confirm(seed, demo_dest):
-    seed = Path(seed)
+    seed = Path(seed).resolve()
     wt = Path(f"/tmp/confirm_{seed.name}_{os.getpid()}")
     res = {"seed": seed.name, "at": time.strftime("%Y-%m-%dT%H:%M:%SZ", time.gmtime())}
     rc, out = sh(f"git -C {REPO} worktree add -q --detach {wt} HEAD")
@@ -68,7 +68,7 @@ def confirm(seed, demo_dest):
 
 
 def run(seed, props, tier):
-    seed = Path(seed)
+    seed = Path(seed).resolve()
     rc, out = sh(f"git -C {REPO} status --porcelain --untracked-files=no")
     if out.strip():
         print("refusing: /repo has uncommitted changes")
